@@ -273,7 +273,6 @@ class ById(object):
 
 def replay(ctx, data):
     """vcheck C14 --replay <file>: call the recorded vectors again; TLC judges the results."""
-    dev_known_findings(ctx)
     drv = ctx.go_build('seqnumd')
     vectors = data['replay']['vectors']
     evs = run_driver(ctx, drv, vectors, 'replay')
@@ -286,26 +285,39 @@ def replay(ctx, data):
     ctx.extra['distinct_nontrivial'] = len(set(tuple(v) for v in vectors))
 
 
-def dev_known_findings(ctx):
-    """Development aid only (VERIF_KF_PROPOSAL=1): read the proposed F2a/F2b entries
-    until they are merged into known_findings.json."""
-    p = os.path.join(vlib.WORKROOT, 'c14_known_findings_proposal.json')
-    if os.environ.get('VERIF_KF_PROPOSAL') and os.path.exists(p):
-        have = set(e.get('id') for e in ctx.known_findings())
-        for e in json.load(open(p)).get('findings', []):
-            if e.get('id') not in have:
-                ctx._kf.append(e)
-
-
-# -------------------------------------------------------------------- check
 def flipped(e):
     c = copy.deepcopy(e)
     c['got'] = (not c['got']) if isinstance(c['got'], bool) else [c['got'][0], (c['got'][1] + 1) % 65536]
     return c
 
 
+def tcp_wrap(ctx):
+    """"Consequently every TCP property above holds unchanged when initial sequence numbers sit just below 2^31 or 2^32":
+    transfers whose data stream crosses the wrap points within its first bytes, with reordering (held-back segments park in the
+    receiver's out-of-order heap across the wrap), loss and duplication, judged against the C01 + C04 clauses."""
+    import tcplib
+    ctx.kf_props = ('C01', 'C04')
+    drv = ctx.go_build('tcpd')
+    rng = ctx.rng
+    scs = []
+    placements = [[0xffff, 0xff00], [0xffff, 0xfff0], [0xffff, 0xffff], [0x7fff, 0xff00], [0x7fff, 0xffff], [0x8000, 0x0000], [0, 0], [0x1234, 0x5678]]
+    for i in range(ctx.pick(24, 240)):
+        iss = placements[i % len(placements)]
+        mtu = rng.choice([100, 200, 576])
+        sc = dict(v=rng.choice([4, 4, 6]), mtu=mtu if mtu >= 200 else 200, sack=rng.random() < 0.5, cc='', sync=True, deadline_ms=45000, seed=rng.randrange(1, 1 << 30),
+                  flags={}, tag='wrap%d-iss%04x%04x' % (i, iss[0], iss[1]),
+                  a=dict(writes=tcplib.chunks(rng, rng.choice([600, 2000, 5000]), 3000), shutdown=True, iss=iss),
+                  b=dict(writes=tcplib.chunks(rng, rng.choice([0, 0, 300]), 300), shutdown=True),
+                  a2b=dict(loss=rng.choice([0, 0.05]), dup=rng.choice([0, 0.05]), hold=rng.choice([0.15, 0.3]), coalesce=rng.choice([0, 0.1]), budget=rng.choice([4, 8, 16])),
+                  b2a=dict(loss=0, dup=0, hold=rng.choice([0, 0.1]), budget=2))
+        scs.append(sc)
+    segs, stats, rep = tcplib.run_pair(ctx, drv, scs, ['C01', 'C04'], 'c14tcp', what='TCP with wrap-adjacent initial sequence numbers', classify=tcplib.classify_all)
+    ctx.extra['tcp_wrap'] = stats
+    ctx.extra['tcp_wrap_iss_placements'] = ['%04x%04x' % tuple(p) for p in placements]
+    ctx.sample(dict(kind='tcp-wrap-scenario', scenario=scs[0]))
+
+
 def run(ctx):
-    dev_known_findings(ctx)
     drv = ctx.go_build('seqnumd')
     pool = concurrent.futures.ThreadPoolExecutor(max_workers=8)
     th = ctx.thorough()
@@ -321,24 +333,30 @@ def run(ctx):
         return out
     fut_apa = pool.submit(apa_jobs)
 
-    # ---- E1 (background thread 2): TLC, every operand tuple at the small moduli
-    def e1_jobs():
-        full = ['Pairs', 'Triples', 'Quads', 'SizesExact']
+    # ---- E1 (background threads 2, 3): TLC, every operand tuple at the small moduli
+    full = ['Pairs', 'Triples', 'Quads', 'SizesExact']
+    qa16 = vlib.MV('{' + ', '.join(str(i) for i in range(16)) + '}')
+
+    def e1_small():
         out = [ctx.tlc('MCSeqNum', cfg(constants=dict(M=16), invariants=full + ['QuadsLit', 'Shift']), SPEC,
                        name='MCSeqNum-M16', must_pass=True, count=False),
                # U32 (16-bit halves) is the same function as SeqNum: B=4 (quads for one a in quick, all in thorough)
-               ctx.tlc('MCU32', cfg(constants=dict(B=4, QA=vlib.MV('{' + ', '.join(str(i) for i in range(16)) + '}') if th else vlib.MV('{7}')),
+               ctx.tlc('MCU32', cfg(constants=dict(B=4, QA=qa16 if th else vlib.MV('{7}')),
                                     invariants=['Arith', 'Pairs', 'Triples', 'Quads']), SPEC,
-                       name='MCU32-B4', must_pass=True, count=False),
-               ctx.tlc('MCSeqNum', cfg(constants=dict(M=32), invariants=full + (['QuadsLit'] if th else [])), SPEC,
-                       name='MCSeqNum-M32', must_pass=True, count=False, timeout=1500)]
+                       name='MCU32-B4', must_pass=True, count=False)]
         if th:
             out.append(ctx.tlc('MCU32', cfg(constants=dict(B=8, QA=vlib.MV('{}')), invariants=['Arith', 'Pairs', 'Triples', 'Quads']),
                                SPEC, name='MCU32-B8', must_pass=True, count=False))
+        return out
+
+    def e1_big():
+        out = [ctx.tlc('MCSeqNum', cfg(constants=dict(M=32), invariants=full + (['QuadsLit'] if th else [])), SPEC,
+                       name='MCSeqNum-M32', must_pass=True, count=False, timeout=1500)]
+        if th:
             out.append(ctx.tlc('MCSeqNum', cfg(constants=dict(M=64), invariants=['Pairs', 'Triples', 'Quads']), SPEC,
                                name='MCSeqNum-M64', must_pass=True, count=False, timeout=3000))
         return out
-    fut_e1 = pool.submit(e1_jobs)
+    fut_e1 = [pool.submit(e1_big), pool.submit(e1_small)]
 
     # ---- binding at real width: seeded vectors -> real API -> TLC decides every result (background threads)
     vectors = gen_vectors(ctx.rng, th)
@@ -502,9 +520,10 @@ def run(ctx):
         '; strict P-spec rejects an F2 vector' if th and anti else '')
 
     # ---- collect background work
-    for r in fut_e1.result():
-        ctx.states += r.distinct
-        ctx.transitions += r.generated
+    for f in fut_e1:
+        for r in f.result():
+            ctx.states += r.distinct
+            ctx.transitions += r.generated
     pool.shutdown()
     ctx.extra['apalache'] = [{k: r[k] for k in ('module', 'inv', 'outcome', 'wall_s')} for r in apa]
     ms = [16, 32] + ([64] if th else [])
@@ -516,11 +535,12 @@ def run(ctx):
                          '{0,+-1,+-2,+-(2^k-1,2^k,2^k+1),2^31-1,2^31,2^31+1,randoms}, window sizes incl. 0, 2^31+-2, 2^32-1, '
                          'window offsets at each boundary +-1; distinct_nontrivial = distinct (function, operands) vectors '
                          'judged by TLC; sweep: every tuple of Z_2^k x translations against the TLC table')
+    tcp_wrap(ctx)
     ctx.assumptions += [
         'real width is sampled (structured boundaries + seed), the for-all over 0..2^32-1 is Apalache on the implementation shapes of SeqNum.tla',
         'Share (exists k) is evaluated at 2^32 as ShareW (k in {a, x}); lemma checked by TLC for every tuple at the small moduli and by Apalache at 2^32',
         'U32.tla (16-bit halves) is checked against SeqNum.tla at B=4 (M=16) and, thorough, B=8 (M=64, pairs/triples); carries are base-generic',
         'embedding n -> n*2^(32-k)+t preserves every definition and region: Apalache SeqNumEmbed (thorough tier); translation invariance is part of AllInv',
         'F2a/F2b are known findings: inside those regions the code is expected to differ from the literal property text',
-        'wrap-adjacent ISS placements of the TCP properties are exercised by the C01-C05 drivers, not by this check',
+        'the "consequently" clause: TCP transfers whose sender ISS is pinned (hook H4) just below 2^31 / 2^32 / at 0 run on two real stacks over a synchronous wire with loss, reordering and coalescing; TLC validates them against the C01 and C04 clauses of TraceTcp (only the active opener\'s ISS can be pinned; the passive side\'s ISS is cookie-derived)',
     ]
